@@ -3,7 +3,7 @@ import collections
 from frontcheck import *
 
 PROP = "C14"
-THEOREMS = [tuple(x) for x in json.load(open(os.path.join(VERIF, "lib", "pins", PROP + ".json")))]
+THEOREMS = ["C14", "C14Start"]
 
 
 def dedup_suite(run, rng, har, drv, stats):
